@@ -106,6 +106,21 @@ def encKids {α : Type} (k : Nat) (enc1 : Cnt → α → Res) : List α → Cnt 
     let K := encKids k enc1 xs r.cnt cum'
     ⟨zipApp r.cs K.cs, zipApp r.ps K.ps, zipApp r.fibs K.fibs, (cum' : Int) :: K.cums, K.cnt⟩
 
+/-- the elements a format lays out for one fiber, in order, with their payloads:
+    U walks all positions (`a.getPayload(i) for i in range(dim_len)`, absent → default),
+    C and B iterate the fiber (`for ind, val in a`: the non-empty elements) -/
+def elemsOf {π : Type} (f : Fmt) (dim : Nat) (dflt : π) (isE : π → Bool) (a : Fib Int π) : Fib Int π :=
+  match f with
+  | .U => (irange dim).map (fun i => (i, (lookup a i).getD dflt))
+  | _ => a.filter (fun e => !isE e.2)
+
+/-- what goes into the rank's coordinate array: nothing (U), the coordinates (C), the mask (B) -/
+def storedCoords (f : Fmt) (dim : Nat) (ec : List Int) : List Int :=
+  match f with
+  | .U => []
+  | .C => ec
+  | .B => maskOf dim ec
+
 /-- `Codec.encode(depth, a, …)` for a fiber with `d` ranks below it.
     `fs` / `tsh` / `ish` are the descriptor, the tensor's own shape and the imposed shape
     from this rank downwards; `pidx` is `len(output_tensor[depth])` (what U returns as its
@@ -115,59 +130,34 @@ def encF : (d : Nat) → List Fmt → List Nat → Option (List Nat) → Nat →
     let f := fs.headD .U
     let dim := dimOf tsh ish
     let me := cnt.headD (0, 0)
-    let a : Fib Int Int := a
-    match f with
-    | .U =>
-      let vals := denseKids dim 0 a
-      let F : EFib := { fmt := .U, next := none, shape := dim, n := dim, ecoords := irange dim, coords := [], occs := [],
-                        vals := vals, npay := dim, nnz := pidx, idx := me.1, osf := me.2, kid0 := 0 }
-      ⟨[[]], [vals], [[F]], pidx, (me.1 + 1, me.2 + pidx) :: cnt.tail⟩
-    | .C =>
-      let pr := a.filter (fun e => !decide (e.2 = 0))
-      let n := pr.length
-      let F : EFib := { fmt := .C, next := none, shape := dim, n := n, ecoords := pr.map (·.1), coords := pr.map (·.1), occs := [],
-                        vals := pr.map (·.2), npay := n, nnz := n, idx := me.1, osf := me.2, kid0 := 0 }
-      ⟨[pr.map (·.1)], [pr.map (·.2)], [[F]], n, (me.1 + 1, me.2 + n) :: cnt.tail⟩
-    | .B =>
-      let pr := a.filter (fun e => !decide (e.2 = 0))
-      let n := pr.length
-      let bits := maskOf dim (pr.map (·.1))
-      let F : EFib := { fmt := .B, next := none, shape := dim, n := n, ecoords := pr.map (·.1), coords := bits, occs := [],
-                        vals := pr.map (·.2), npay := n, nnz := n, idx := me.1, osf := me.2, kid0 := 0 }
-      ⟨[bits], [pr.map (·.2)], [[F]], n, (me.1 + 1, me.2 + n) :: cnt.tail⟩
+    let els := elemsOf f dim (0 : Int) (fun v => decide (v = 0)) (show Fib Int Int from a)
+    let n := els.length
+    let stored := storedCoords f dim (els.map (·.1))
+    let occ := match f with | .U => pidx | _ => n
+    let F : EFib := { fmt := f, next := none, shape := dim, n := n, ecoords := els.map (·.1),
+                      coords := stored, occs := [], vals := els.map (·.2), npay := n, nnz := occ,
+                      idx := me.1, osf := me.2, kid0 := 0 }
+    ⟨[stored], [els.map (·.2)], [[F]], occ, (me.1 + 1, me.2 + occ) :: cnt.tail⟩
   | d + 1, fs, tsh, ish, pidx, cnt, a =>
     let f := fs.headD .U
     let g := fs.tail.headD .U
     let dim := dimOf tsh ish
     let me := cnt.headD (0, 0)
-    let kid0 := (cnt.tail.headD (0, 0)).1
-    let pr := present (κ := Int) (0 : Int) (d + 1) a
-    match f with
-    | .U =>
-      let kids := denseKids dim (show Tree Int Int (d + 1) from ([] : List (Int × Tree Int Int d)))
-                    (show Fib Int (Tree Int Int (d + 1)) from a)
-      let K := encKids (d + 1) (encF d fs.tail tsh.tail (ish.map List.tail) me.1) kids cnt.tail 0
-      let occs := if g.explicit then K.cums else []
-      let F : EFib := { fmt := .U, next := some g, shape := dim, n := dim, ecoords := irange dim, coords := [], occs := occs,
-                        vals := [], npay := dim, nnz := pidx, idx := me.1, osf := me.2, kid0 := kid0 }
-      ⟨[] :: K.cs, occs :: K.ps, [F] :: K.fibs, pidx, (me.1 + 1, me.2 + pidx) :: K.cnt⟩
-    | .C =>
-      let n := pr.length
-      let K := encKids (d + 1) (encF d fs.tail tsh.tail (ish.map List.tail) me.1) (pr.map (·.2)) cnt.tail 0
-      let occs := if g.explicit then K.cums else []
-      let F : EFib := { fmt := .C, next := some g, shape := dim, n := n, ecoords := pr.map (·.1), coords := pr.map (·.1), occs := occs,
-                        vals := [], npay := if g.explicit then n else 0, nnz := n, idx := me.1, osf := me.2,
-                        kid0 := kid0 }
-      ⟨pr.map (·.1) :: K.cs, occs :: K.ps, [F] :: K.fibs, n, (me.1 + 1, me.2 + n) :: K.cnt⟩
-    | .B =>
-      let n := pr.length
-      -- `codec.encode(depth + 1, val, ranks, output, output_tensor)`: the imposed shape is not passed on
-      let K := encKids (d + 1) (encF d fs.tail tsh.tail none me.1) (pr.map (·.2)) cnt.tail 0
-      let occs := if g.explicit then K.cums else []
-      let bits := maskOf dim (pr.map (·.1))
-      let F : EFib := { fmt := .B, next := some g, shape := dim, n := n, ecoords := pr.map (·.1), coords := bits, occs := occs,
-                        vals := [], npay := n, nnz := n, idx := me.1, osf := me.2, kid0 := kid0 }
-      ⟨bits :: K.cs, occs :: K.ps, [F] :: K.fibs, n, (me.1 + 1, me.2 + n) :: K.cnt⟩
+    let els := elemsOf f dim (show Tree Int Int (d + 1) from ([] : List (Int × Tree Int Int d)))
+                 (isEmpty (κ := Int) (0 : Int) (d + 1)) (show Fib Int (Tree Int Int (d + 1)) from a)
+    let n := els.length
+    -- Bitvector: `codec.encode(depth + 1, val, ranks, output, output_tensor)` — the imposed shape is not passed on
+    let ishK := match f with | .B => none | _ => ish.map List.tail
+    let K := encKids (d + 1) (encF d fs.tail tsh.tail ishK me.1) (els.map (·.2)) cnt.tail 0
+    let occs := if g.explicit then K.cums else []
+    let stored := storedCoords f dim (els.map (·.1))
+    let occ := match f with | .U => pidx | _ => n
+    -- CoordinateList appends the child to `self.payloads` only when the rank below is explicit
+    let npay := match f with | .C => (if g.explicit then n else 0) | _ => n
+    let F : EFib := { fmt := f, next := some g, shape := dim, n := n, ecoords := els.map (·.1),
+                      coords := stored, occs := occs, vals := [], npay := npay, nnz := occ,
+                      idx := me.1, osf := me.2, kid0 := (cnt.tail.headD (0, 0)).1 }
+    ⟨stored :: K.cs, occs :: K.ps, [F] :: K.fibs, occ, (me.1 + 1, me.2 + occ) :: K.cnt⟩
 
 /-- the whole encoding (`encode(-1, root, …)`): per-rank arrays, `payloads_root`, fiber lists -/
 structure Encoded where
@@ -183,6 +173,12 @@ def encode (d : Nat) (fs : List Fmt) (tsh : List Nat) (ish : Option (List Nat)) 
   let f0 := fs.headD .U
   let root : List Int := if f0.explicit then [(r.occ : Int)] else []
   ⟨root, r.cs, r.ps, r.fibs⟩
+
+/-- the extent every rank is actually laid out with (from this rank downwards) -/
+def effShape : List Fmt → List Nat → Option (List Nat) → List Nat
+  | [], _, _ => []
+  | f :: fs, tsh, ish =>
+    dimOf tsh ish :: effShape fs tsh.tail (match f with | .B => none | _ => ish.map List.tail)
 
 /-! ### Decoding by the documented layout (specification side) -/
 
